@@ -2,7 +2,8 @@
 (otherwise CANARY-SILENT: a rule that can no longer see its target would pass vacuously forever)."""
 import hashlib, os, shutil, subprocess
 import facts, mir
-from facts import VERIF, CACHE, EXTRACT, DRIVER, Infra
+from facts import VERIF, EXTRACT, DRIVER, Infra
+from facts import MAIN_CACHE as CACHE     # the canary crate does not depend on the analysed tree: always the main cache
 
 CANARY = os.path.join(VERIF, "canary")
 
